@@ -85,7 +85,32 @@ theorem C07_progress (r : Rem) (hr : r.wf) (hrest : r.atRest) (tail : Bytes) (m 
     readChunkedS_inv (((r.enc ++ tail).take (min m (r.enc ++ tail).length)).length + 2) r hr hrest tail
       (min m (r.enc ++ tail).length) cap stop (by omega) (by rw [hwl]; omega)
   rw [htake, hread]
-  exact ⟨r1.state, n1, o1, rfl, hlive (by simp; omega) hcap hne⟩
+  exact ⟨r1.state, n1, o1, rfl, hlive (by simp; omega) (Or.inl hcap) hne⟩
+
+/-- **C07 (the rest of the framing needs no output space).** Once the whole payload has been delivered
+    (`r.payload = []`: what remains is the CRLF after the last chunk, the last-chunk line, trailers, the final
+    CRLF), a caller that offers everything that remains is never stuck *whatever the size of its output
+    buffer, zero included*: the read consumes at least one byte and produces nothing. A caller that reads the
+    payload into a buffer of exactly the payload's length therefore still sees the body end. -/
+theorem C07_progress_tail (r : Rem) (hr : r.wf) (hrest : r.atRest) (tail : Bytes) (m cap : Nat) (stop : Bool)
+    (hm : r.enc.length ≤ m) (hpay : r.payload = []) (hne : r.state ≠ .ended) :
+    ∃ (d' : Dechunker) (n : Nat),
+      callReadS r.state ((r.enc ++ tail).take m) cap stop = (d', .ok (n, [])) ∧ 0 < n := by
+  unfold callReadS
+  have hne' : (r.state == Dechunker.ended) = false := by simpa using hne
+  simp only [hne', Bool.false_eq_true, if_false]
+  have htake : (r.enc ++ tail).take m = (r.enc ++ tail).take (min m (r.enc ++ tail).length) := by
+    rw [List.take_eq_take_min]
+  have hwl : ((r.enc ++ tail).take (min m (r.enc ++ tail).length)).length = min m (r.enc ++ tail).length := by
+    rw [List.length_take]; omega
+  obtain ⟨r1, n1, o1, hread, _, _, _, _, _, _, hp, _, hlive⟩ :=
+    readChunkedS_inv (((r.enc ++ tail).take (min m (r.enc ++ tail).length)).length + 2) r hr hrest tail
+      (min m (r.enc ++ tail).length) cap stop (by omega) (by rw [hwl]; omega)
+  have ho : o1 = [] := by
+    rw [hpay] at hp
+    exact (List.append_eq_nil_iff.mp hp.symm).1
+  rw [htake, hread, ho]
+  exact ⟨r1.state, n1, rfl, hlive (by simp; omega) (Or.inr hpay) hne⟩
 
 /-- The semantic hypothesis of the grammar ("the size field parses to n") is met by every run of hex
     digits, upper or lower case, with leading zeros, whose value fits `usize`. -/
@@ -99,3 +124,17 @@ def c07Rem : Rem := .atSize [{ line := c07Line2, data := [97, 98] }] c07Last [[8
 
 example : c07Rem.atRest := by simp [c07Rem, Rem.atRest]
 #guard c07Rem.enc == [50, 59, 120, 13, 10, 97, 98, 13, 10, 48, 13, 10, 84, 58, 118, 13, 10, 13, 10]
+
+/-- non-vacuity of `C07_progress_tail`: standing on the CRLF behind the last data byte of the coding above,
+    nothing is left to deliver and the body has not ended; two reads of the model into a zero-byte output
+    consume the CRLF (2 bytes), then `0` CRLF `T:v` CRLF CRLF (10 bytes), and the body has ended (evaluated) -/
+def c07Tail : Rem := .atCrlf [] c07Last [[84, 58, 118]]
+example : c07Tail.atRest ∧ c07Tail.payload = [] ∧ c07Tail.state ≠ .ended := by
+  simp [c07Tail, Rem.atRest, Rem.payload, Rem.state, payloadOf]
+
+#guard (match callReadS c07Tail.state (c07Tail.enc ++ [72, 84]) 0 false with
+  | (d, .ok (n, out)) => n == 2 && out.isEmpty &&
+    (match callReadS d ((c07Tail.enc ++ [72, 84]).drop n) 0 false with
+     | (d', .ok (n', out')) => n' == 10 && out'.isEmpty && d' == .ended
+     | _ => false)
+  | _ => false)
